@@ -1,6 +1,6 @@
 use super::SoapBinding;
 use crate::{
-    error::WriterResult,
+    error::{WriterError, WriterResult},
     model::{
         Namespace,
         field::as_field_name,
@@ -109,7 +109,7 @@ where
         writeln!(writer, "pub struct {rust_name} {{")?;
         for (part_name, header) in &soap_operation.headers {
             let field_name = as_field_name(part_name);
-            let rust_type = header.rust_type.xml_name().expect("xml_name not found");
+            let rust_type = header.rust_type.xml_name().ok_or(WriterError::InvalidReference)?;
 
             if let Some(namespace) = header.in_namespace.as_ref() {
                 let abbreviation = namespace.abbreviation.as_str();
@@ -144,9 +144,9 @@ where
         write_check_restrictions_footer(writer)?;
     }
 
-    let body = soap_operation.body.rust_type.xml_name().expect("xml_name not found");
+    let body = soap_operation.body.rust_type.xml_name().ok_or(WriterError::InvalidReference)?;
     let body_field_name = as_field_name(&to_snake_case(body));
-    let xml_name = soap_operation.body.rust_type.xml_name().expect("xml_name not found");
+    let xml_name = soap_operation.body.rust_type.xml_name().ok_or(WriterError::InvalidReference)?;
 
     writeln!(writer, "#[derive(Debug, Default, YaSerialize, YaDeserialize)]")?;
 
